@@ -145,6 +145,8 @@ class Gen:
         if fn_may_fail(st["fn"]) or rng.random() < 0.3:
             st["retry"] = gen_retry(rng, prof)
         self.custom_serdes(st)
+        if rng.random() < 0.1:
+            st["deco"] = True  # @durable_step: named after the decorated function
         return st
 
     def custom_serdes(self, st):
@@ -254,6 +256,8 @@ class Gen:
             self.custom_serdes(st)
             if rng.random() < 0.2:
                 st["setlog"] = True  # the body installs a user-supplied logger on its own context
+            if rng.random() < 0.15:
+                st["deco"] = True  # @durable_with_child_context
             return self.wrap_try(st, 0.4)
         if k in ("parallel", "map"):
             nb = rng.choice(prof.get("branch_counts", [1, 2, 2, 3, 3, 4]))
@@ -269,6 +273,15 @@ class Gen:
                         cfg["tol"] = rng.choice([0, 1, nb])
                     if rng.random() < 0.2:
                         cfg["pct"] = rng.choice([0, 14, 20, 25, 33, 34, 50, 66, 100])
+                    if rng.random() < 0.2:
+                        # the packaged factory methods instead of explicit numbers
+                        for k_ in ("min", "tol", "pct"):
+                            cfg.pop(k_, None)
+                        cfg["preset"] = rng.choice(["first_successful", "all_completed", "all_successful"])
+                        if cfg["preset"] == "first_successful":
+                            cfg["min"] = 1
+                        elif cfg["preset"] == "all_successful":
+                            cfg["tol"], cfg["pct"] = 0, 0
                 else:
                     cfg["tol"] = nb  # never exceeded: result independent of completion order
             branches = []
